@@ -163,22 +163,30 @@ def adjMinInv (p : Params α) (h : PHours α) : PHours α :=
 /-- `x != 0.` -/
 def nonZero (x : α) : Bool := !Sc.eqb x 0.0
 
+/-- reading the extreme flag of a possibly invalid hour, in the form the source has:
+    `.unwrap().extreme` (panics on Err) or `.map_or(false, |x| x.extreme)` -/
+def readFlag (x : Option (PH α)) : Option Bool :=
+  match Gen.intFlagRead, x with
+  | _, some f => some f.extreme
+  | .unwrap, none => none
+  | .mapOrFalse, none => some false
+
 /-- the Fajr half of adj_for_int -/
 def intFajrStep (p : Params α) (h : PHours α) : Except Panic (PHours α) :=
   if nonZero p.intFajr then
-    match h.fajr with
+    match readFlag h.fajr with
     | none => .error (.unwrapErr "adj_for_int:fajr")
-    | some f =>
-      .ok { h with fajr := h.shur.map fun (x : PH α) => ⟨x.value - p.intFajr / Gen.MIN_SEC_PER_HR_MIN, f.extreme⟩ }
+    | some ext =>
+      .ok { h with fajr := h.shur.map fun (x : PH α) => ⟨x.value - p.intFajr / Gen.MIN_SEC_PER_HR_MIN, ext⟩ }
   else .ok h
 
 /-- the Isha half of adj_for_int -/
 def intIshaStep (p : Params α) (h : PHours α) : Except Panic (PHours α) :=
   if nonZero p.intIsha then
-    match h.isha with
+    match readFlag h.isha with
     | none => .error (.unwrapErr "adj_for_int:isha")
-    | some f =>
-      .ok { h with isha := h.magh.map fun (x : PH α) => ⟨x.value + p.intIsha / Gen.MIN_SEC_PER_HR_MIN, f.extreme⟩ }
+    | some ext =>
+      .ok { h with isha := h.magh.map fun (x : PH α) => ⟨x.value + p.intIsha / Gen.MIN_SEC_PER_HR_MIN, ext⟩ }
   else .ok h
 
 /-- adj_for_int -/
